@@ -115,7 +115,8 @@ let parse_op (cfg : config) (toks : string list) : int wop =
 (* ---- printing ---- *)
 let pay_str (p : int option) = match p with None -> "-" | Some x -> string_of_int x
 let tstr (t : int transition) : string =
-  if not (t_valid t) then "-"
+  if not (t_valid t) then
+    (if int_of_nat t.t_origin = 255 && t.t_pay = None then "-" else Printf.sprintf "-[%d:%s]" (int_of_nat t.t_origin) (pay_str t.t_pay))
   else Printf.sprintf "%d>%d:%s" (int_of_nat t.t_origin) (int_of_nat t.t_dest) (pay_str t.t_pay)
 let task_str (t : int task) : string =
   Printf.sprintf "%d>%d:%s" (int_of_nat t.tk_origin) (int_of_nat t.tk_dest) (pay_str t.tk_payload)
